@@ -224,7 +224,7 @@ def run_case(rec, env, det_ref, text, doc, limit, mode, cyclic, containers, bran
         if out != want:
             rec.violation("result-differs-within-limit", dict(wit, expected_nodes=len(want)))
             return "bad"
-    elif count <= 5000 and sorted(out) != sorted(want):
+    elif count <= 5000 and sorted(out, key=repr) != sorted(want, key=repr):
         rec.violation("result-not-a-permutation-within-limit", dict(wit, expected_nodes=len(want)))
         return "bad"
     return "completed"
